@@ -73,6 +73,14 @@ func main() {
 		runOps(o, res, cases, w, ops, cfg, []int{100, 100, 100, 2}[i], -1-i, 4)
 	}
 
+	// corpus: one BIG block (more state keys and more known operations than LeveldbPermanent.batchlimit, which
+	// is regenerated from the source) merged into the permanent store; every key read back after every step
+	for i, pc := range []int{0, 100} {
+		w, ops, cfg := chain.BigHistory(vh.NewRand(uint64(950+i)), false)
+		runOps(o, res, cases, w, ops, cfg, pc, -10-i, 4)
+	}
+	res.Distribution["perm_batchlimit"] = chain.BatchLimit()
+
 	nchains := o.Pick(60, 1500)
 	r := vh.NewRand(o.Seed)
 	for ci := 0; ci < nchains; ci++ {
